@@ -114,7 +114,27 @@ pub const KINDS: &[&str] = &[
     "dup_line",
     "multibyte",
     "nul",
+    "unicode_newline",
+    "block_zero",
+    "block_swap",
+    "block_dup",
+    "tail_zero",
+    "tabs",
+    "comment_only_tail",
+    "blank",
 ];
+
+/// storage-block granularities for the block faults
+const BLOCKS: [usize; 3] = [64, 512, 4096];
+
+/// byte offset -> next char boundary at or after it
+fn boundary_at_or_after(s: &str, mut i: usize) -> usize {
+    i = i.min(s.len());
+    while !s.is_char_boundary(i) {
+        i += 1;
+    }
+    i
+}
 
 fn char_boundaries(s: &str) -> Vec<usize> {
     s.char_indices().map(|(i, _)| i).chain(std::iter::once(s.len())).collect()
@@ -196,6 +216,76 @@ pub fn make_image(bases: &[Base], spec: &ImageSpec) -> Option<String> {
             let pos = *cb.get(spec.a)?;
             format!("{}\0{}", &text[..pos], &text[pos..])
         }
+        // a line terminator that str::lines does not know (or a vertical tab / form feed) instead
+        // of the '\n' of line a: NEL, LINE SEPARATOR, PARAGRAPH SEPARATOR, VT, FF
+        "unicode_newline" => {
+            let l = lines.get(spec.a)?;
+            if !l.ends_with('\n') {
+                return None;
+            }
+            let rep = ["\u{85}", "\u{2028}", "\u{2029}", "\u{0b}", "\u{0c}"][spec.b % 5];
+            let mut out: String = lines[..spec.a].concat();
+            out.push_str(&l[..l.len() - 1]);
+            out.push_str(rep);
+            out.push_str(&lines[spec.a + 1..].concat());
+            out
+        }
+        // a storage block that was allocated but never written: NUL bytes in place of the data
+        "block_zero" => {
+            let bs = BLOCKS[spec.b % 3];
+            let start = boundary_at_or_after(text, spec.a * bs);
+            if start >= text.len() {
+                return None;
+            }
+            let end = boundary_at_or_after(text, start + bs);
+            format!("{}{}{}", &text[..start], "\0".repeat(end - start), &text[end..])
+        }
+        // two blocks written to each other's place
+        "block_swap" => {
+            let bs = BLOCKS[spec.b % 3];
+            let s0 = boundary_at_or_after(text, spec.a * bs);
+            let e0 = boundary_at_or_after(text, s0 + bs);
+            let e1 = boundary_at_or_after(text, e0 + bs);
+            if e0 >= text.len() || s0 >= e0 {
+                return None;
+            }
+            format!("{}{}{}{}", &text[..s0], &text[e0..e1], &text[s0..e0], &text[e1..])
+        }
+        // a block written twice (a retried write that was not idempotent)
+        "block_dup" => {
+            let bs = BLOCKS[spec.b % 3];
+            let s0 = boundary_at_or_after(text, spec.a * bs);
+            let e0 = boundary_at_or_after(text, s0 + bs);
+            if s0 >= text.len() {
+                return None;
+            }
+            format!("{}{}{}", &text[..e0], &text[s0..e0], &text[e0..])
+        }
+        // the file was extended to its final length but only a prefix of the data arrived
+        "tail_zero" => {
+            let cb = char_boundaries(text);
+            let pos = *cb.get(spec.a)?;
+            format!("{}{}", &text[..pos], "\0".repeat(text.len() - pos))
+        }
+        // leading blanks of every line replaced by tabs
+        "tabs" => {
+            let mut out = String::new();
+            for l in &lines {
+                let body = l.trim_start_matches(' ');
+                let n = l.len() - body.len();
+                out.push_str(&"\t".repeat((n + 3) / 4));
+                out.push_str(body);
+            }
+            out
+        }
+        // truncated, and the cut lies inside a comment that runs to the end of the file
+        "comment_only_tail" => {
+            let cb = char_boundaries(text);
+            let pos = *cb.get(spec.a)?;
+            format!("{}// cut", &text[..pos])
+        }
+        // nothing but blanks, newlines or a comment
+        "blank" => ["", "\n", " ", "\n\n\n", "// nothing\n", "//", "\t\n", "\r\n", "\u{feff}"][spec.a % 9].to_string(),
         _ => return None,
     })
 }
@@ -352,6 +442,26 @@ pub fn enumerate_specs(bases: &[Base], seed: u64, thorough: bool) -> Vec<ImageSp
         }
         for _ in 0..(if thorough { 6 } else { 1 }) {
             push(&mut specs, "nul", rng.usize_below(n_chars.max(1)), 0);
+        }
+        // line terminators unknown to str::lines, block-level storage faults, layout
+        for &a in line_idx.iter().take(if thorough { n_lines.min(40) } else { 3 }) {
+            push(&mut specs, "unicode_newline", a, rng.usize_below(5));
+        }
+        for g in 0..3 {
+            let n_blocks = b.text.len() / BLOCKS[g] + 1;
+            for _ in 0..(if thorough { 6 } else { 1 }) {
+                push(&mut specs, "block_zero", rng.usize_below(n_blocks), g);
+                push(&mut specs, "block_swap", rng.usize_below(n_blocks), g);
+                push(&mut specs, "block_dup", rng.usize_below(n_blocks), g);
+            }
+        }
+        for _ in 0..(if thorough { 20 } else { 2 }) {
+            push(&mut specs, "tail_zero", rng.usize_below(n_chars.max(1)), 0);
+            push(&mut specs, "comment_only_tail", rng.usize_below(n_chars.max(1)), 0);
+        }
+        push(&mut specs, "tabs", 0, 0);
+        if bi < 9 {
+            push(&mut specs, "blank", bi, 0);
         }
     }
     specs
